@@ -260,7 +260,7 @@ pub fn all() -> Vec<CheckDef> {
             id: "C13",
             run: run_c13,
             replay: replay_c13,
-            rule: "lines from a grammar generator (verb in random case, middles that may contain ':', optional trailing incl. empty, blank runs), a byte-level generator and all strings of length <= 8/10 over {SP ':' 'a' ',' '#'}; non-trivial = reference parse has >= 2 parameters and one of: ':' inside a middle, blank runs, empty trailing, mixed-case verb; distinct by (verb, #params, those four flags); SIM parts: verb_table = EVERY verb x arity 0..max+2 x {plain, mixed case, extra blanks} must be answered 421 (unknown) / 461 naming the verb (too few parameters) / neither; framing = lines of 1..4200 bytes (dense around the 2000 limit) LF/CRLF: processed once and uncut, or exactly one 417 and nothing executed; chunking = the same script line-at-a-time vs arbitrary chunking gives equal transcripts; eof_fragment = 0-2 complete lines then an unterminated fragment (command, partial CRLF, cut multi-byte character) then close / half-close: the complete lines are executed, the fragment never is; a verb that is not one of the 41 commands (incl. verbs whose Unicode upper case is a command name) never maps to a command; relay = model-based histories with adversarial texts: every relayed PRIVMSG/NOTICE/TOPIC/PART/KICK/NICK/INVITE/WALLOPS and 301/332, re-parsed by the reference tokenizer, carries exactly the originator's target and text, every emitted line is one CRLF-terminated parsable message",
+            rule: "lines from a grammar generator (verb in random case, middles that may contain ':', optional trailing incl. empty, blank runs), a byte-level generator and all strings of length <= 8/10 over {SP ':' 'a' ',' '#'}; non-trivial = reference parse has >= 2 parameters and one of: ':' inside a middle, blank runs, empty trailing, mixed-case verb; distinct by (verb, #params, those four flags); SIM parts: verb_table = EVERY verb x arity 0..max+2 x {plain, mixed case, extra blanks} must be answered 421 (unknown) / 461 naming the verb (too few parameters) / neither; framing = lines of 1..4200 bytes (dense around the 2000 limit) LF/CRLF: processed once and uncut, or exactly one 417 and nothing executed; chunking = the same script line-at-a-time vs arbitrary chunking gives equal transcripts; eof_fragment = 0-2 complete lines then an unterminated fragment (command, partial CRLF, cut multi-byte character) then close / half-close: the complete lines are executed, the fragment never is; valid_params = unusual but acceptable parameters (status prefixes before dotted channel names, empty places in key lists, empty trailing texts, optional extra parameters) are never refused as invalid; a verb that is not one of the 41 commands (incl. verbs whose Unicode upper case is a command name) never maps to a command; relay = model-based histories with adversarial texts: every relayed PRIVMSG/NOTICE/TOPIC/PART/KICK/NICK/INVITE/WALLOPS and 301/332, re-parsed by the reference tokenizer, carries exactly the originator's target and text, every emitted line is one CRLF-terminated parsable message",
             level: "exploration",
             assumptions: &["reference tokenizer (refparse.rs, self-tested) is the IRC grammar of the statement", "TAB/VT/FF/CR/LF inside a line and leading non-ASCII blanks are not judged", "line lengths 1991..2009 may be handled either way (processed whole or rejected whole)", "SIM engine for the wire parts"],
         },
